@@ -239,6 +239,9 @@ func (s *SnapWrap) NewSnapshotFile(idx, term uint64, conf []byte) (raft.Snapshot
 		return f, err
 	}
 	w := &SnapFileWrap{inner: f, inc: s.inc, rec: s.rec, writing: true}
+	if ctx := s.rec.ctxByTask[s.rec.c.Sim.Cur()]; ctx != nil && ctx.Msg.Kind == KindIS {
+		w.openTerm = ctx.Msg.IS.Term
+	}
 	s.rec.snapNew(s.inc, w)
 	return w, nil
 }
@@ -265,6 +268,8 @@ type SnapFileWrap struct {
 	writing bool
 	written []byte
 	closed  bool
+	// openTerm: term of the InstallSnapshot request that created the file (0 for local snapshots).
+	openTerm uint64
 }
 
 func (f *SnapFileWrap) Read(p []byte) (int, error) { return f.inner.Read(p) }
@@ -283,7 +288,11 @@ func (f *SnapFileWrap) Write(p []byte) (int, error) {
 	if ctx := f.rec.ctxByTask[f.rec.c.Sim.Cur()]; ctx != nil && ctx.Msg.Kind == KindIS && f.writing {
 		// (Only OLDER into NEWER is the known finding: a request with a greater last index
 		// resets the file on the unchanged tree, so the opposite direction is something else.)
-		if ctx.Msg.IS.LastIncludedIndex < f.inner.Metadata().LastIncludedIndex {
+		if ctx.Msg.IS.Term != f.openTerm {
+			// The unchanged tree discards a partially received snapshot whenever the term
+			// changes: a chunk of another term's leader in this file is not F3.
+			f.rec.probe("chunk-written-into-file-of-another-term")
+		} else if ctx.Msg.IS.LastIncludedIndex < f.inner.Metadata().LastIncludedIndex {
 			f.rec.setTaint(f.inc.Node, "F3")
 			f.rec.probe("chunk-of-older-snapshot-written-into-newer-file")
 		} else if ctx.Msg.IS.LastIncludedIndex > f.inner.Metadata().LastIncludedIndex {
